@@ -91,7 +91,12 @@ GRV_CMD(shape) {
             if (fresh) { if (gf) gr_font_destroy(gf); gr_face_destroy(face); face = viaops ? tfc.make(opts) : gr_make_file_face(font.c_str(), opts); gf = make_font(ppm, face, hinted); }
             set_case("shape %s seg=%ld opts=%d dir=%d ppm=%g", id.c_str(), k, opts, dir, ppm);
             GRV_WATCHDOG;
-            gr_segment *seg = gr_make_seg(gf, face, 0, 0, gr_utf32, t.data(), t.size(), dir);
+            // "feats": [[feature id, value], ...] on top of the font's defaults
+            gr_feature_val *jfv = 0;
+            if (j->has("feats")) { jfv = gr_face_featureval_for_lang(face, 0);
+                for (auto &fp : (*j)["feats"].a) { const gr_feature_ref *fr = gr_face_find_fref(face, gr_uint32((*fp)[size_t(0)].num())); if (fr && jfv) gr_fref_set_feature_value(fr, gr_uint16((*fp)[1].num()), jfv); } }
+            gr_segment *seg = gr_make_seg(gf, face, 0, jfv, gr_utf32, t.data(), t.size(), dir);
+            if (jfv) gr_featureval_destroy(jfv);
             ++segs; ++g_cases;
             // "justify": the whole segment is justified to one and a half times its width before it is looked at
             if (seg && j->get("justify", 0) && gr_seg_first_slot(seg)) { GRV_WATCHDOG; gr_seg_justify(seg, gr_seg_first_slot(seg), gf, 1.5 * std::fabs(double(gr_seg_advance_X(seg))) + 10.0, gr_justCompleteLine, 0, 0); }
